@@ -620,6 +620,12 @@ func (se *SpecEnv) evalCall(x *ECall) Value {
 		return boolV(errIs(se.e, a.T, b.T))
 	case "typeof":
 		sfail("typeof must be compared with a type")
+	case "pathJoin3":
+		se.e.ctx.declFun("path.join3", []string{"Str", "Str", "Str"}, "Str")
+		return Value{T: app("path.join3", se.eval(x.Args[0]).T, se.eval(x.Args[1]).T, se.eval(x.Args[2]).T), Sort: "Str", GoT: types.Typ[types.String]}
+	case "strLower":
+		se.e.ctx.declFun("str.lower", []string{"Str"}, "Str")
+		return Value{T: app("str.lower", se.eval(x.Args[0]).T), Sort: "Str", GoT: types.Typ[types.String]}
 	case "isnil":
 		v := se.eval(x.Args[0])
 		return boolV(eq(v.T, nilOf(v).T))
